@@ -243,7 +243,10 @@ def write_evidence(
         "wall_s": round(wall_s, 3),
         "violations": new_violations,
     }
-    out = VERIF / "evidence" / f"{ctx.prop}.json"
+    # tools/mut.sh points this elsewhere so that runs against a deliberately
+    # broken tree never overwrite the committed evidence
+    edir = os.environ.get("VERIF_EVIDENCE_DIR")
+    out = (Path(edir) if edir else VERIF / "evidence") / f"{ctx.prop}.json"
     out.parent.mkdir(exist_ok=True)
     tmp = out.with_suffix(".json.tmp")
     tmp.write_text(json.dumps(ev, indent=1, sort_keys=True) + "\n")
